@@ -397,6 +397,12 @@ func (rr *runRec) buildDec(bi int, side string, ord int, d DecSpec) decor.Decora
 		x = decor.NewPercentage("(%d)", wc)
 	case "counters":
 		x = decor.CountersNoUnit("(%d/%d)", wc)
+	case "kib":
+		x = decor.CountersKibiByte("(% .1f/% .1f)", wc)
+	case "kb":
+		x = decor.CountersKiloByte("(%.2f/%.2f)", wc)
+	case "speedkib":
+		x = decor.AverageSpeed(decor.SizeB1024(0), "(% .1f)", wc)
 	case "name":
 		x = decor.Name(fmt.Sprintf("(n%d)", bi), wc)
 	case "listener":
